@@ -115,6 +115,49 @@ theorem C11_roundtrip_tree_fresh_maker (tt ft : List Str) (t : Tree) (hn : (Tree
       undoElement f (doTree t (phInit tt ft)).2 diffElemList (doTree t (phInit tt ft)).1 = .ok (r, []) :=
   C11_roundtrip_tree _ diffElemList t (Undo.phInit_tinv tt ft) (Undo.phInit_fresh tt ft _ hn hid) hlow hnn hb
 
+/-- What the XML formatter does with the **empty script** (the second half of C03, and the "markup-free output" of
+C14): `prepare` substitutes the left and then the right document with one maker, `format` replays nothing, `finalize`
+calls `undo_tree` on the left tree - and that returns the left document, up to the normal form, with no placeholder
+left.  (`formatTree` runs `undo_tree` with a fixed fuel; the statement is for every sufficiently large fuel.) -/
+theorem C11_prepare_then_finalize (tt ft : List Str) (L R : Tree)
+    (hnL : (Tree.ids L ++ Tree.ids R).Nodup) (hid : ∀ i ∈ Tree.ids L ++ Tree.ids R, i < 900001)
+    (hlowL : Undo.LowT L) (hlowR : Undo.LowT R)
+    (hnnL : Undo.NonNested (phInit tt ft).textTags L) (hnnR : Undo.NonNested (doTree L (phInit tt ft)).2.textTags R)
+    (hb : (doTree R (doTree L (phInit tt ft)).2).2.counter < 0x110000) :
+    ∃ r, Undo.normT r = Undo.normT L ∧ ∃ N, ∀ f, N ≤ f →
+      undoElement f (doTree R (doTree L (phInit tt ft)).2).2 diffElemList (doTree L (phInit tt ft)).1 = .ok (r, []) := by
+  have hn := hnL
+  rw [List.nodup_append] at hn
+  have frL := Undo.phInit_fresh tt ft (Tree.ids L) hn.1 (fun i hi => hid i (List.mem_append_left _ hi))
+  have inv0 := Undo.phInit_tinv tt ft
+  have trL := Undo.doTree_trav _ diffElemList L inv0 frL hlowL hnnL
+  -- the right document is new to the state the left one left
+  have frR : Undo.Fresh (doTree L (phInit tt ft)).2 diffElemList (Tree.ids R) := by
+    have fr0 := Undo.phInit_fresh tt ft (Tree.ids R) hn.2.1 (fun i hi => hid i (List.mem_append_right _ hi))
+    refine ⟨hn.2.1, ?_, fr0.fde, ?_⟩
+    · intro i hi h hh
+      rcases trL.heapIds h hh with h' | h'
+      · exact fr0.fheap i hi h h'
+      · intro hm; exact hn.2.2 i (h' i hm) i hi rfl
+    · intro i hi x hx
+      rcases trL.newEntries x hx with h' | h'
+      · exact fr0.fent i hi x h'
+      · intro e; exact hn.2.2 _ h' i hi e
+  have trR := Undo.doTree_trav _ diffElemList R trL.inv frR hlowR hnnR
+  -- the left document is restorable in every later state
+  by_cases hne : (phInit tt ft).textTags = []
+  · have h1 : doTree L (phInit tt ft) = (L, phInit tt ft) := by unfold doTree; simp [hne]
+    have h2 : doTree R (phInit tt ft) = (R, phInit tt ft) := by unfold doTree; simp [hne]
+    rw [h1]
+    simp only
+    rw [h2]
+    obtain ⟨N, hN⟩ := Undo.undoElement_plain (phInit tt ft) diffElemList L
+      (Undo.plainT_of_lowT _ inv0.closed.lob L hlowL)
+    exact ⟨L, rfl, N, hN⟩
+  · have hrest := (Undo.doAll_trav (phInit tt ft).textTags diffElemList L _ inv0 frL hlowL).2
+    rw [← Undo.doTree_eq_doAll L _ hne frL.nodup hnnL] at hrest
+    exact hrest _ trR.stable trR.inv.closed trR.cnt hb
+
 /-- Non-vacuity of the round trip: a text element with nested, repeated and empty formatting elements and single
 elements meets every hypothesis of `C11_roundtrip_element_fresh_maker` (the restoring functions are defined by
 well-founded recursion and do not reduce in the kernel; the concrete run of this element is part of unit U7). -/
